@@ -202,6 +202,20 @@ CHECKS = {
         "Hang bound 30-60 s then re-run alone with 90-180 s. Known finding D14 (objects share one native "
         "simulation) is re-demonstrated by a deterministic probe and reported as KNOWN-FINDING; histories "
         "that operate an object after another one was set up are not generated."),
+    "C11": (
+        "Hypothesis scripts x lifecycle histories executed on an ASan+UBSan+_GLIBCXX_ASSERTIONS build of the "
+        "engine (child process, normal Python API) with plain-vs-sanitized differential; thorough tier: "
+        "coverage-guided libFuzzer campaign on the C entry points",
+        "Exploration. The engine sources of the working tree are compiled with AddressSanitizer, UBSan and "
+        "hardened libstdc++ and driven through the normal Python API by generated scripts (degenerate grids, "
+        "periodic axes of length 1/2, multigraphs with self-loops / parallel edges / isolated nodes, exhausted "
+        "sample lists, all modes and policies, empty cells) and lifecycle histories; any sanitizer report, "
+        "library assertion or fatal signal is a violation and the plain build must return the same values. "
+        "The thorough tier runs libFuzzer (fuzz/engine_fuzz.cpp, 2 x 4e5 executions, seeded and empty corpus) "
+        "on valid C-level arguments and call sequences.",
+        "Sanitizers see executed paths only and do not detect reads of uninitialised values. Scripts are "
+        "kept numerically tame (time step chosen from the reference law; fuzz stoichiometry conserves "
+        "molecule numbers) because exploding tau-leap populations are a user error, not a valid script."),
 }
 
 NOT_BUILT = "check not built yet in this working session (planned; DESIGN.md section 4)"
